@@ -183,6 +183,7 @@ class Lower:
         self.tmpn = 0
         self.tables = []    # file-level generated tables
         self.needed_globals = set()
+        self.try_label = None
         self.global_defs = []
         self.fn_unlowered = {}
 
@@ -399,6 +400,8 @@ class Lower:
         a, b = kids(n)
         if op in self.DBL_BIN and self.is_double(a) and self.is_double(b) and self.WRAP_DOUBLE_OPS:
             return '%s(%s, %s)' % (self.DBL_BIN[op], self.expr(a), self.expr(b))
+        if op == '*' and self.CHECK_DIV and self.ct(n) in ('int', 'long', 'long long') and self.ct(a) == self.ct(n) and self.ct(b) == self.ct(n):
+            return 'BL_IMUL(%s, %s, %s)' % (self.ct(n).replace(' ', '_'), self.expr(a), self.expr(b))
         if op in ('/', '%') and self.CHECK_DIV and self.ct(n) in ('int', 'long', 'long long'):
             return 'BL_%s(%s, %s, %s)' % ('SDIV' if op == '/' else 'SMOD', self.ct(n).replace(' ', '_'),
                                           self.expr(a), self.expr(b))
@@ -479,6 +482,8 @@ class Lower:
             tmp = strip(kids(tmp)[0])
         a = kids(tmp)
         if 'BlochError' in qt(tmp) and len(a) >= 3:
+            if self.try_label:
+                return [p + '{ bl_throw(%s, %s, %s); goto %s; }' % (self.expr(a[0]), self.expr(a[1]), self.expr(a[2]), self.try_label)]
             return [p + '{ bl_throw(%s, %s, %s); return %s; }' % (self.expr(a[0]), self.expr(a[1]), self.expr(a[2]), self.ret0)]
         return self.throw_other(tmp, p)
 
@@ -508,7 +513,7 @@ class Lower:
                 out += [p + x for x in self.flush_pre()]
                 out.append(p + d)
                 if self.needs_prop:
-                    out.append(p + 'if (bl_exc) return %s;' % self.ret0)
+                    out.append(p + self.prop_stmt())
                     self.needs_prop = False
                 out.append(p + '/*@AFTERDECL:%s:%s@*/' % (self.fn, v.get('name', '_')))
         elif k == 'ReturnStmt':
@@ -517,7 +522,7 @@ class Lower:
             out += [p + x for x in self.flush_pre()]
             if self.needs_prop and e is not None:
                 tv = self.tmp('ret')
-                out.append(p + '{ %s %s = %s; if (bl_exc) return %s; return %s; }' % (self.rt, tv, e, self.ret0, tv))
+                out.append(p + '{ %s %s = %s; %s return %s; }' % (self.rt, tv, e, self.prop_stmt(), tv))
                 self.needs_prop = False
             else:
                 out.append(p + ('return %s;' % e if e is not None else 'return;'))
@@ -562,15 +567,48 @@ class Lower:
             out += [p + x for x in self.flush_pre()]
             out.append(p + e + ';')
         if self.needs_prop:
-            out.append(p + 'if (bl_exc) return %s;' % self.ret0)
+            out.append(p + self.prop_stmt())
             self.needs_prop = False
         return out
+
+    def prop_stmt(self):
+        """what follows a call that may have raised: leave the function, or jump to the enclosing handler"""
+        if self.try_label:
+            return 'if (bl_exc) goto %s;' % self.try_label
+        return 'if (bl_exc) return %s;' % self.ret0
 
     def ret_expr(self, n):
         return self.expr(n)
 
     def try_stmt(self, n, ind):
-        raise Unsupported('try statement')
+        """try { B } catch (...) { H }  /  catch (const std::exception&) { H }: run B; a raised exception jumps to
+        the handler, which clears it and runs H.  Only catch-all style handlers are lowered (a handler that
+        names its exception object and uses it is outside the subset)."""
+        p = '  ' * ind
+        ks = kids(n)
+        if len(ks) != 2 or ks[1].get('kind') != 'CXXCatchStmt':
+            raise Unsupported('try with %d handlers' % (len(ks) - 1))
+        h = ks[1]
+        hk = kids(h)
+        var = [k for k in hk if k.get('kind') == 'VarDecl']
+        if var:
+            t = qt(var[0])
+            if 'exception' not in t:
+                raise Unsupported('catch of ' + t)
+            used = []
+            walk(hk[-1], lambda z: used.append(z) if z.get('kind') == 'DeclRefExpr' and z['referencedDecl'].get('id') == var[0].get('id') else None)
+            if used:
+                raise Unsupported('handler uses the exception object')
+        self.tmpn += 1
+        lab = 'bl_catch_%d' % self.tmpn
+        old = self.try_label
+        self.try_label = lab
+        out = [p + '{'] + self.block(ks[0], ind + 1)
+        self.try_label = old
+        out += [p + '  goto %s_done;' % lab, p + '  %s: bl_exc = 0; bl_exc_line = 0; bl_exc_col = 0;' % lab]
+        out += self.block(hk[-1], ind + 1)
+        out += [p + '  %s_done: ;' % lab, p + '}']
+        return out
 
     def flush_pre(self):
         x = self.pre
@@ -594,7 +632,7 @@ class Lower:
         if self.needs_prop:
             tv = self.tmp('c')
             out.append(p + '_Bool %s = %s;' % (tv, cond))
-            out.append(p + 'if (bl_exc) return %s;' % self.ret0)
+            out.append(p + self.prop_stmt())
             cond = tv
             self.needs_prop = False
         out.append(p + 'if (%s)' % cond)
@@ -669,7 +707,9 @@ class Lower:
         return '%s %s' % (ctp, pd['name'])
 
     def ret_ctype(self, d):
-        t = d['type']['qualType']
+        t = d['type'].get('desugaredQualType') or d['type']['qualType']
+        if t.startswith('auto '):
+            t = d['type']['qualType']
         # "RET (PARAMS) quals": find the '(' that matches the last ')'
         j = t.rfind(')')
         depth = 0
